@@ -75,6 +75,19 @@ pub fn unhex(s: &str) -> Option<Vec<u8>> {
 pub struct Rec {
     pub events: Vec<String>,
     pub resize_policy: bool,
+    /// the callbacks look at the screen they are handed and leave a trace of what they saw (model: `cbProbe`)
+    pub probe: bool,
+}
+
+impl Rec {
+    fn look(&self, screen: &mut vt100::Screen) {
+        if self.probe {
+            let (r, c) = screen.size();
+            let (cr, cc) = screen.cursor_position();
+            let w = 1 + (u32::from(cr) + u32::from(cc) + u32::from(c)) % 9;
+            screen.set_size(r, w as u16);
+        }
+    }
 }
 
 fn opt(b: Option<u8>) -> String {
@@ -85,11 +98,13 @@ fn opt(b: Option<u8>) -> String {
 }
 
 impl vt100::Callbacks for Rec {
-    fn audible_bell(&mut self, _: &mut vt100::Screen) {
+    fn audible_bell(&mut self, s: &mut vt100::Screen) {
         self.events.push("bell".into());
+        self.look(s);
     }
-    fn visual_bell(&mut self, _: &mut vt100::Screen) {
+    fn visual_bell(&mut self, s: &mut vt100::Screen) {
         self.events.push("vbell".into());
+        self.look(s);
     }
     fn resize(&mut self, screen: &mut vt100::Screen, request: (u16, u16)) {
         self.events.push(format!("resize:{}:{}", request.0, request.1));
@@ -97,24 +112,29 @@ impl vt100::Callbacks for Rec {
             screen.set_size(request.0, request.1);
         }
     }
-    fn set_window_icon_name(&mut self, _: &mut vt100::Screen, icon_name: &[u8]) {
+    fn set_window_icon_name(&mut self, s: &mut vt100::Screen, icon_name: &[u8]) {
         self.events.push(format!("icon:{}", hex(icon_name)));
+        self.look(s);
     }
-    fn set_window_title(&mut self, _: &mut vt100::Screen, title: &[u8]) {
+    fn set_window_title(&mut self, s: &mut vt100::Screen, title: &[u8]) {
         self.events.push(format!("title:{}", hex(title)));
+        self.look(s);
     }
-    fn unhandled_char(&mut self, _: &mut vt100::Screen, c: char) {
+    fn unhandled_char(&mut self, s: &mut vt100::Screen, c: char) {
         self.events.push(format!("uchar:{}", u32::from(c)));
+        self.look(s);
     }
-    fn unhandled_control(&mut self, _: &mut vt100::Screen, b: u8) {
+    fn unhandled_control(&mut self, s: &mut vt100::Screen, b: u8) {
         self.events.push(format!("uctl:{b}"));
+        self.look(s);
     }
-    fn unhandled_escape(&mut self, _: &mut vt100::Screen, i1: Option<u8>, i2: Option<u8>, b: u8) {
+    fn unhandled_escape(&mut self, s: &mut vt100::Screen, i1: Option<u8>, i2: Option<u8>, b: u8) {
         self.events.push(format!("uesc:{}:{}:{}", opt(i1), opt(i2), b));
+        self.look(s);
     }
     fn unhandled_csi(
         &mut self,
-        _: &mut vt100::Screen,
+        s: &mut vt100::Screen,
         i1: Option<u8>,
         i2: Option<u8>,
         params: &[&[u16]],
@@ -126,10 +146,12 @@ impl vt100::Callbacks for Rec {
             .collect();
         self.events
             .push(format!("ucsi:{}:{}:{}:{}", opt(i1), opt(i2), ps.join(";"), u32::from(c)));
+        self.look(s);
     }
-    fn unhandled_osc(&mut self, _: &mut vt100::Screen, params: &[&[u8]]) {
+    fn unhandled_osc(&mut self, s: &mut vt100::Screen, params: &[&[u8]]) {
         let ps: Vec<String> = params.iter().map(|p| hex(p)).collect();
         self.events.push(format!("uosc:{}", ps.join("|")));
+        self.look(s);
     }
 }
 
@@ -337,7 +359,15 @@ impl Runner {
             let _ = writeln!(j, "{line}");
         }
         let t0 = std::time::Instant::now();
+        // F12 taint: the width changed during this op (set_size through the API, or from inside a
+        // callback) while the parser lives on — rows already in the scrollback keep the old width
+        let cols_before = if line.starts_with("N ") { None } else { self.screen().map(|s| s.size().1) };
         let out = self.exec_inner(line);
+        if let (Some(a), Some(b)) = (cols_before, self.screen().map(|s| s.size().1)) {
+            if a != b {
+                self.cols_changed = true;
+            }
+        }
         let dt = t0.elapsed().as_secs_f64();
         if dt > self.slowest.0 {
             self.slowest = (dt, line.chars().take(120).collect());
@@ -358,7 +388,7 @@ impl Runner {
                     self.slots = vec![None; NSLOTS];
                     self.slot_f12 = vec![false; NSLOTS];
                 }
-                let rec = Rec { events: vec![], resize_policy: *cb == "resize" };
+                let rec = Rec { events: vec![], resize_policy: *cb == "resize" || *cb == "probe", probe: *cb == "probe" };
                 self.ev_mark = 0;
                 self.cols_changed = false;
                 let plain = *cb == "plain";
